@@ -294,8 +294,12 @@ class Pools(object):
             p.shutdown(wait=False, cancel_futures=True)
 
 
+def evidence_dir():
+    return os.environ.get("VERIF_EVIDENCE_DIR") or os.path.join(VERIF, "evidence")
+
+
 def replay_path(prop, seed, run):
-    d = os.path.join(VERIF, "replays")
+    d = os.environ.get("VERIF_REPLAY_DIR") or os.path.join(VERIF, "replays")
     os.makedirs(d, exist_ok=True)
     return os.path.join(d, "%s-%d-%d.json" % (prop, seed, run))
 
@@ -495,8 +499,8 @@ def check(prop, tier, seed, workers=16, runs=None, wall_cap=None, verbose=True):
             },
             "assumptions": spec["assumptions"],
         }
-        os.makedirs(os.path.join(VERIF, "evidence"), exist_ok=True)
-        write_json(os.path.join(VERIF, "evidence", "%s.json" % prop), ev)
+        os.makedirs(evidence_dir(), exist_ok=True)
+        write_json(os.path.join(evidence_dir(), "%s.json" % prop), ev)
         if capped:
             say("note: wall cap reached, %d of %d runs completed" % (completed, planned))
         say(
@@ -504,6 +508,26 @@ def check(prop, tier, seed, workers=16, runs=None, wall_cap=None, verbose=True):
             % (prop, tier, seed, completed, agg["evaluations"], agg["steps"], wall, len(agg["sigs"]), len(real), agg["known"] or "{}")
         )
         return exit_code
+    finally:
+        pools.shutdown()
+
+
+def print_digests(prop, tier, seed, workers, runs):
+    """Digests of the first `runs` runs as JSON on stdout (used by selftest-determinism)."""
+    known = load_known(prop)
+    pools = Pools(workers, [e["key"] for e in known if e["status"] == "open"])
+    try:
+        out = {}
+        futs = []
+        for a in (0, 1):
+            idx = [r for r in range(runs) if r % 2 == a]
+            step = max(1, len(idx) // max(1, workers // 2))
+            for i in range(0, len(idx), step):
+                futs.append(pools.submit(a, work_chunk, prop, tier, seed, idx[i:i + step], True, True))
+        for f in futs:
+            out.update(f.result(timeout=600)["digests"])
+        print(json.dumps({str(k): v for k, v in sorted(out.items())}))
+        return 0
     finally:
         pools.shutdown()
 
@@ -557,6 +581,8 @@ def main(argv):
             from . import snap
 
             return snap.restore_batch_child()
+        if args.what == "digests":
+            return print_digests(args.path, args.tier, seed, args.workers, args.runs or 64)
         if args.what.startswith("selftest"):
             from . import selftest
 
